@@ -6,14 +6,17 @@ open StarsimModel StarsimModel.MultiRun StarsimModel.Proto
 Line protocol of the C18 driver.  Configurations are identified by a natural number; the "results" of
 running configuration `c` alone with seed `s` are the pair `(c, s)` (the harness runs the real thing).
 
-  run <spec|asis> <single|list> <members> <nruns> <reseed> <iseeds> <icfgs> <dorun> <mode> <inplace> <chunk> <sched>
+  run <spec|asis> <msim|parallel|initrun> <single|list> <members> <nruns> <reseed> <iseeds> <icfgs> <simseed> <simcfg> <dorun> <mode> <inplace> <chunk> <ident> <sched>
+      api     : msim = MultiSim(...).run() / multi_run; parallel = ss.parallel(*members); initrun = MultiSim(..., initialize=True).run()
       members : `cfg:seed:init:ran` joined by `,`   (init = `none` or the seed at `sim.init()`; ran = 0/1)
       reseed  : none | 0 | 1        iseeds : none | comma list of ints (`-` = empty)     icfgs : likewise (naturals)
+      ident   : `-` (all list entries distinct objects) or per entry the index of the first entry that is the same object
       mode    : parallel | serial | debug         sched : `worker:task` joined by `,` or `-`
-   -> ok callers=<sims> sims=<sims>     with a sim shown as cfg:seed:eff  (eff = seed the results were run with, `-` = not run)
+   -> ok callers=<sims> sims=<sims>     with a sim shown as cfg:seed:eff:init  (eff = seed the results were run with, `-` = not run; init = initialised 0/1)
       or E:AlreadyRun | E:KeyNotFound | E:Type | E:Value
   chunk <n> <workers>                           -> ok <poolChunk>
-  reduce <spec|asis> <npts> <usemean> <k> <qlo> <qhi> <members>    members: rows of rationals joined by `;`
+  reduceargs <bounds|none> <qlo,qhi|none>        -> ok <k> <qlo> <qhi>   (the values reduce() uses)
+  reduce <spec|asis> <npts> <usemean> <bounds|none> <qlo,qhi|none> <members>    members: rows of rationals joined by `;`
    -> ok <centre,low,high,var>;...   per time point, with sqrt := id (so low/high of the mean branch are mean ∓ k·variance)
   summarize <spec|asis> <mean|median|all> <qs> <vals>
 -/
@@ -30,7 +33,7 @@ def showSim (s : Sim K R) : String :=
   let eff := match s.results with
     | some r => toString r.2
     | none => "-"
-  s!"{s.cfg}:{s.seed}:{eff}"
+  s!"{s.cfg}:{s.seed}:{eff}:{if s.initSeed.isSome then 1 else 0}"
 
 def showSims (l : List (Sim K R)) : String := if l.isEmpty then "-" else ",".intercalate (l.map showSim)
 
@@ -74,20 +77,44 @@ def parseSched (s : String) : Option (List (Nat × Nat)) :=
 def parseRows (s : String) : Option (List (List Rat)) :=
   if s = "-" then some [] else (s.splitOn ";").mapM parseRatList?
 
+def parseOptNat'? (s : String) : Option (Option Nat) :=
+  if s = "none" then some none else (s.toNat?).map some
+
+def parseOptRat? (s : String) : Option (Option Rat) :=
+  if s = "none" then some none else (parseRat? s).map some
+
+def parseOptRatPair? (s : String) : Option (Option (Rat × Rat)) :=
+  if s = "none" then some none else
+    match s.splitOn "," with
+    | [a, b] => do some (some ((← parseRat? a), (← parseRat? b)))
+    | _ => none
+
 def doRun (ws : List String) : Option String :=
   match ws with
-  | [v, tg, members, nruns, reseed, iseeds, icfgs, dorun, mode, inplace, chunk, sched] => do
+  | [v, api, tg, members, nruns, reseed, iseeds, icfgs, simseed, simcfg, dorun, mode, inplace, chunk, ident, sched] => do
       let v ← parseVariant v
       let ms ← parseMembers members
       let target : Target K R ← (if tg = "single" then (match ms with | [s] => some (.single s) | _ => none)
                                   else if tg = "list" then some (.list ms) else none)
       let a : Args K := { nRuns := ← nruns.toNat?, reseed := ← parseOptBool? reseed, iterSeeds := ← parseOptIntList? iseeds,
-                          iterCfgs := ← parseOptNatList? icfgs, doRun := ← parseBool? dorun }
+                          iterCfgs := ← parseOptNatList? icfgs, simSeed := ← parseOptInt? simseed,
+                          simCfg := ← parseOptNat'? simcfg, doRun := ← parseBool? dorun,
+                          ident := ← (if ident = "-" then some id else do
+                            let l ← parseNatList? ident
+                            some (fun i => l.getD i i)) }
       let mode ← parseMode mode
       let inplace ← parseBool? inplace
       let chunk ← chunk.toNat?
       let sched ← parseSched sched
-      match msimRun simulateId v target a mode inplace chunk sched with
+      let res ← (if api = "msim" then some (msimRun simulateId v target a mode inplace chunk sched)
+        else if api = "parallel" then some (parallelCall simulateId v ms a mode inplace chunk sched)
+        else if api = "initrun" then
+          let n := match target with
+            | .single _ => (match nRunsOf a with | .ok n => n | .error _ => 0)
+            | .list l => l.length
+          some (msimInitRun simulateId v target a mode inplace chunk ((List.range n).map fun i => (0, i)) sched)
+        else none)
+      match res with
       | .error e => some (showErr e)
       | .ok o => some s!"ok callers={showSims o.callers} sims={showSims o.sims}"
   | _ => none
@@ -97,15 +124,14 @@ def showBand (b : Band) (var : Rat) : String :=
 
 def doReduce (ws : List String) : Option String :=
   match ws with
-  | [v, npts, um, k, qlo, qhi, rows] => do
+  | [v, npts, um, bounds, quant, rows] => do
       let v ← parseVariant v
       let npts ← npts.toNat?
       let um ← parseBool? um
-      let k ← parseRat? k
-      let qlo ← parseRat? qlo
-      let qhi ← parseRat? qhi
+      let bounds ← parseOptRat? bounds
+      let quant ← parseOptRatPair? quant
       let members ← parseRows rows
-      match reduceKey v npts id um k qlo qhi members with
+      match reduceCall v npts id um bounds quant members with
       | .error e => some (showErr e)
       | .ok bands =>
       let vars := match members with
@@ -134,6 +160,10 @@ def stepLine (u : Unit) (line : String) : Unit × String :=
     | "run" :: ws => doRun ws
     | ["chunk", n, w] => do some s!"ok {poolChunk (← n.toNat?) (← w.toNat?)}"
     | "reduce" :: ws => doReduce ws
+    | ["reduceargs", b, q] => do
+        let b ← parseOptRat? b
+        let q ← parseOptRatPair? q
+        some s!"ok {showRat (Gen.boundsArg b)} {showRat (Gen.quantilesArg q).1} {showRat (Gen.quantilesArg q).2}"
     | "summarize" :: ws => doSummarize ws
     | _ => none
   (u, r.getD "bad-op")
